@@ -18,6 +18,10 @@ from common import DEVNAMES, Case, bg, device_classes, gen_case, widths
 ID = 'C05'
 LEAN_MODULES = ['Py65.Props.C05', 'Py65.Props.C05h']
 NAMESPACES = ['Py65.Props.C05', 'Py65.Props.C05h']
+# library helpers (CPython behaviour modelled in lean/Py65/Model/*Rt*.lean ...) that the generated code of these
+# modules calls, derived by scanning the Lean sources (harness/rtscan.py); validated against CPython on every run
+import rtcheck  # noqa: E402
+RT_HELPERS = rtcheck.helpers_for(LEAN_MODULES)
 EXPECTED_THEOREMS = ['Py65.Props.C05.undeclared_dev6502', 'Py65.Props.C05.undeclared_dev65c02',
                      'Py65.Props.C05.undeclared_dev65org16', 'Py65.Props.C05.pc_closed',
                      'Py65.Props.C05h.closed_step', 'Py65.Props.C05h.closed_step_6502', 'Py65.Props.C05h.closed_step_65c02',
